@@ -31,15 +31,8 @@ def contLines (t : Bytes) : List Bytes := (splitNL t).tail
 lines; lines made of `orig` or more spaces only are allowed. -/
 def WellIndented (orig : Nat) (t : Bytes) : Prop := ∀ l ∈ contLines t, orig ≤ lead l
 
-/-- `remove_indent` also strips the *first* line of the snippet when it happens to begin with
-`orig - new` spaces (the code "assumes input is well indented"); a snippet that starts at a
-node never begins with a space, which is what this predicate says. -/
-def FirstLineKept (orig new : Nat) (t : Bytes) : Prop := orig ≤ new ∨ lead (firstLine t) < orig - new
-
 instance (orig : Nat) (t : Bytes) : Decidable (WellIndented orig t) := by
   unfold WellIndented; infer_instance
-instance (orig new : Nat) (t : Bytes) : Decidable (FirstLineKept orig new t) := by
-  unfold FirstLineKept; infer_instance
 
 /-- every text is the join of its newline-free lines -/
 theorem text_as_lines (t : Bytes) :
@@ -133,33 +126,32 @@ indentation `orig` and inserted at indentation `new`: the first line is untouche
 continuation line keeps its content and has its indentation changed by `new - orig`
 (all three orderings of `orig` and `new`). -/
 theorem indentLines_shift (orig new : Nat) (l₀ : Bytes) (ls : List Bytes)
-    (hnl : ∀ l ∈ l₀ :: ls, NL ∉ l) (hw : ∀ l ∈ ls, orig ≤ lead l)
-    (hf : orig ≤ new ∨ lead l₀ < orig - new) :
+    (hnl : ∀ l ∈ l₀ :: ls, NL ∉ l) (hw : ∀ l ∈ ls, orig ≤ lead l) :
     indentLines new (.multiLine (joinNL (l₀ :: ls)) orig) =
       joinNL (l₀ :: ls.map (reindent orig new)) :=
-  indentLines_shift_lines orig new l₀ ls hnl hw hf
+  indentLines_shift_lines orig new l₀ ls hnl hw
 
-/-- the same for a text: `WellIndented` / `FirstLineKept` are the decidable hypotheses -/
+/-- the same for a text: `WellIndented` is the (decidable) hypothesis -/
 theorem indentLines_shift_text (orig new : Nat) (t : Bytes)
-    (hw : WellIndented orig t) (hf : FirstLineKept orig new t) :
+    (hw : WellIndented orig t) :
     indentLines new (.multiLine t orig) =
       joinNL (firstLine t :: (contLines t).map (reindent orig new)) := by
   obtain ⟨ht, hnl⟩ := text_as_lines t
   conv => lhs; rw [ht]
-  exact indentLines_shift orig new _ _ hnl hw hf
+  exact indentLines_shift orig new _ _ hnl hw
 
 /-- **Relative indentation is kept.** Line by line: the output has the same number of lines,
 the same first line, and the `i`-th continuation line has the same content as in the
 snippet with `lead outᵢ - new = lead lᵢ - orig` (written additively). -/
 theorem relative_indent_kept (orig new : Nat) (t : Bytes)
-    (hw : WellIndented orig t) (hf : FirstLineKept orig new t) :
+    (hw : WellIndented orig t) :
     ∃ outs, splitNL (indentLines new (.multiLine t orig)) = firstLine t :: outs ∧
       outs.length = (contLines t).length ∧
       ∀ i (h : i < (contLines t).length) (h' : i < outs.length),
         lead outs[i] + orig = lead (contLines t)[i] + new ∧ body outs[i] = body (contLines t)[i] := by
   obtain ⟨ht, hnl⟩ := text_as_lines t
   refine ⟨(contLines t).map (reindent orig new), ?_, by simp, ?_⟩
-  · rw [indentLines_shift_text orig new t hw hf]
+  · rw [indentLines_shift_text orig new t hw]
     apply splitNL_joinNL
     intro l hl
     simp only [List.mem_cons, List.mem_map] at hl
@@ -175,7 +167,7 @@ theorem relative_indent_kept (orig new : Nat) (t : Bytes)
 /-- non-vacuity: `"{\n    a\n  }"` captured at indentation 2, inserted at 4 and at 0 -/
 example :
     let t : Bytes := [0x7B, 0x0A, 0x20, 0x20, 0x20, 0x20, 0x61, 0x0A, 0x20, 0x20, 0x7D]
-    WellIndented 2 t ∧ FirstLineKept 2 4 t ∧ FirstLineKept 2 0 t ∧
+    WellIndented 2 t ∧
     indentLines 4 (.multiLine t 2) =
       [0x7B, 0x0A, 0x20, 0x20, 0x20, 0x20, 0x20, 0x20, 0x61, 0x0A, 0x20, 0x20, 0x20, 0x20, 0x7D] ∧
     indentLines 0 (.multiLine t 2) = [0x7B, 0x0A, 0x20, 0x20, 0x61, 0x0A, 0x7D] := by
@@ -185,17 +177,17 @@ example :
 indentation `I` (to template column 0) and inserting the result at indentation `I` again
 gives back the snippet. -/
 theorem deindent_reindent_id (I : Nat) (t : Bytes)
-    (hw : WellIndented I t) (hf : FirstLineKept I 0 t) :
+    (hw : WellIndented I t) :
     indentLines I (.multiLine (indentLines 0 (.multiLine t I)) 0) = t := by
   obtain ⟨ht, hnl⟩ := text_as_lines t
-  rw [indentLines_shift_text I 0 t hw hf]
+  rw [indentLines_shift_text I 0 t hw]
   have hnl' : ∀ l ∈ firstLine t :: (contLines t).map (reindent I 0), NL ∉ l := by
     intro l hl
     simp only [List.mem_cons, List.mem_map] at hl
     rcases hl with rfl | ⟨l', hl', rfl⟩
     · exact hnl _ (by simp)
     · exact not_mem_reindent _ _ (hnl l' (by simp [hl']))
-  rw [indentLines_shift 0 I _ _ hnl' (fun _ _ => Nat.zero_le _) (Or.inl (Nat.zero_le _))]
+  rw [indentLines_shift 0 I _ _ hnl' (fun _ _ => Nat.zero_le _)]
   conv => rhs; rw [ht]
   congr 2
   rw [List.map_map]
@@ -208,10 +200,10 @@ theorem deindent_reindent_id (I : Nat) (t : Bytes)
 /-! ## Why the restriction on continuation lines is needed (documented boundary, not a finding)
 
 The property's quantifier excludes captures with blank or under-indented continuation lines.
-The first two witnesses below show that the exclusion is necessary for the code as it is.
-The third group (`first_line_…`) is different: it lies *inside* the quantifier and is a
-finding. All end-to-end witnesses are replayed on the real implementation by the
-`witness-replay` oracle. -/
+The two witnesses below show that the exclusion is necessary for the code as it is; both are
+replayed on the real implementation by the `witness-replay` oracle. The `first_line_kept_…`
+theorems after them are the regression witnesses of the repaired defect (e39e245:
+`remove_indent` used to strip the first line of a snippet too). -/
 
 /-- Blank continuation line. Source `"  {\n\n  }"`, the block `{\n\n  }` (bytes 2..8) rewritten
 to itself with the template `$A`: the blank line comes back with two spaces
@@ -238,44 +230,25 @@ theorem under_indented_counterexample :
     templateFix source 4 env [0x24, 0x41] [] ≠ slice source (4, 15) := by
   decide
 
-/-- First line (function level). `remove_indent` strips *every* line that begins with the
-indentation, including the first line of the snippet: `"  a\n  b"` taken from indentation 2
-to 0 becomes `"a\nb"`, not `"  a\nb"`. `FirstLineKept` is the precise condition under which
-this does not happen. -/
-theorem first_line_stripped_example :
+/-- First line (function level), after repair e39e245: `remove_indent` keeps line 0 untouched.
+`"  a\n  b"` taken from indentation 2 to 0 becomes `"  a\nb"` (it used to become `"a\nb"`). -/
+theorem first_line_kept_example :
     let t : Bytes := [0x20, 0x20, 0x61, 0x0A, 0x20, 0x20, 0x62]
-    WellIndented 2 t ∧ ¬ FirstLineKept 2 0 t ∧
-    indentLines 0 (.multiLine t 2) = [0x61, 0x0A, 0x62] := by
+    WellIndented 2 t ∧
+    indentLines 0 (.multiLine t 2) = [0x20, 0x20, 0x61, 0x0A, 0x62] := by
   decide
 
-/-- First line (end to end) — **a finding, inside the property's quantifier**. Source
+/-- First line (end to end), the former finding as a regression witness. Source
 ``"  `  a\n  b`"`` (a JavaScript template string at indentation 2); the capture is the
-string's text `"  a\n  b"` (bytes 3..10): its continuation line is indented as far as the
-line it starts on and there is no blank line, yet rewriting it to itself gives `"a\n  b"`:
-the two leading spaces of the string's content are lost. Replayed on the real code by the
-`witness-replay` oracle, found on generated trees by the `rewrite-to-self` oracle, recorded
-in KNOWN_FINDINGS.jsonl with a proposed repair (`FIX_C07.patch`). -/
-theorem first_line_counterexample :
+string's text `"  a\n  b"` (bytes 3..10), which itself begins with as many spaces as its
+line is indented. Rewriting it to itself is now a no-op (it used to give `"a\n  b"`).
+Instance of `rewrite_to_self_noop`; replayed on the real code by the `witness-replay`
+oracle. -/
+theorem first_line_kept_end_to_end :
     let source : Bytes := [0x20, 0x20, 0x60, 0x20, 0x20, 0x61, 0x0A, 0x20, 0x20, 0x62, 0x60]
     let env : TEnv := { single := [([0x41], (3, 10))] }
     WellIndented (getIndentAtOffset (source.take 3)) (slice source (3, 10)) ∧
-    ¬ FirstLineKept (getIndentAtOffset (source.take 3)) 0 (slice source (3, 10)) ∧
-    templateFix source 3 env [0x24, 0x41] [] = [0x61, 0x0A, 0x20, 0x20, 0x62] ∧
-    templateFix source 3 env [0x24, 0x41] [] ≠ slice source (3, 10) := by
-  decide
-
-/-- The full statement "rewriting a well-indented node to itself is a no-op" — without the
-hypothesis on the first line — is **false for the code as it is**. The provable restriction
-is `rewrite_to_self_noop_partial` below. -/
-theorem rewrite_to_self_full_counterexample :
-    ¬ (∀ (source : Bytes) (env : TEnv) (s e : Nat),
-        lookupB [0x41] env.single = some (s, e) →
-        WellIndented (indentAt (source.take s)) (slice source (s, e)) →
-        templateFix source s env [0x24, 0x41] [] = slice source (s, e)) := by
-  intro h
-  have := h [0x20, 0x20, 0x60, 0x20, 0x20, 0x61, 0x0A, 0x20, 0x20, 0x62, 0x60]
-    { single := [([0x41], (3, 10))] } 3 10 (by decide) (by decide)
-  revert this
+    templateFix source 3 env [0x24, 0x41] [] = slice source (3, 10) := by
   decide
 
 /-! ## Template expansion -/
@@ -353,8 +326,7 @@ theorem capture_reindented (source : Bytes) (m : Nat) (env : TEnv) (tr : List By
     (hhead : ∀ b, post.head? = some b → isValidMetaVarByte b = false)
     (r : Nat × Nat) (hr : varRange env (mkVar tr k name) = some r)
     (hmulti : NL ∈ slice source r)
-    (hw : WellIndented (indentAt (source.take r.1)) (slice source r))
-    (hf : FirstLineKept (indentAt (source.take r.1)) (indentAt pre) (slice source r)) :
+    (hw : WellIndented (indentAt (source.take r.1)) (slice source r)) :
     templateFix source m env (pre ++ (List.replicate k 0x24 ++ name ++ post)) tr =
       shiftNL (indentAt (source.take m)) pre ++
       joinNL (firstLine (slice source r) ::
@@ -368,9 +340,9 @@ theorem capture_reindented (source : Bytes) (m : Nat) (env : TEnv) (tr : List By
     have : NL ∉ slice source r := by
       rw [ht]; simpa [joinNL] using hnl (firstLine (slice source r)) (by simp)
     exact this hmulti
-  simp only [← indentAt_spec] at hw hf ⊢
+  simp only [← indentAt_spec] at hw ⊢
   rw [templateFix_one_var source m env tr pre k hk name post hpre hpost hne hall hhead,
-    maybeGetVar_multiline source env _ _ r hr _ _ ht hls hnl hw hf]
+    maybeGetVar_multiline source env _ _ r hr _ _ ht hls hnl hw]
   simp only [Option.getD_some, shiftNL_append]
   have hnl' : ∀ l ∈ firstLine (slice source r) ::
       (contLines (slice source r)).map
@@ -392,20 +364,19 @@ theorem capture_reindented (source : Bytes) (m : Nat) (env : TEnv) (tr : List By
 /-- **Rewriting a node to itself is a no-op.** Template `$NAME` (also `$$NAME`, `$$$NAME`)
 with the variable bound to the range of the matched node itself: the replacement is exactly
 the node's text — for every indentation of the match site, for single-line nodes
-unconditionally, for multi-line nodes under `WellIndented` (the property's own restriction)
-and `FirstLineKept` (the restriction forced by `first_line_counterexample`). -/
-theorem rewrite_to_self_noop_partial (source : Bytes) (env : TEnv) (k : Nat) (hk : 1 ≤ k ∧ k ≤ 3)
+unconditionally, for multi-line nodes under `WellIndented` (the property's own restriction;
+no condition on the first line since repair e39e245). -/
+theorem rewrite_to_self_noop (source : Bytes) (env : TEnv) (k : Nat) (hk : 1 ≤ k ∧ k ≤ 3)
     (name : Bytes) (hne : name ≠ []) (hall : name.all isValidMetaVarByte = true)
     (r : Nat × Nat) (hr : varRange env (mkVar [] k name) = some r)
-    (hw : WellIndented (indentAt (source.take r.1)) (slice source r))
-    (hf : FirstLineKept (indentAt (source.take r.1)) 0 (slice source r)) :
+    (hw : WellIndented (indentAt (source.take r.1)) (slice source r)) :
     templateFix source r.1 env (List.replicate k 0x24 ++ name) [] = slice source r := by
   have hshape : List.replicate k (0x24 : UInt8) ++ name =
       [] ++ (List.replicate k 0x24 ++ name ++ []) := by simp
   have h0 : indentAt [] = 0 := by decide
   by_cases hmulti : NL ∈ slice source r
   · rw [hshape, capture_reindented source r.1 env [] [] k hk name [] (by simp) (by simp) hne hall
-      (by simp) r hr hmulti hw (by rw [h0]; exact hf)]
+      (by simp) r hr hmulti hw]
     obtain ⟨ht, hnl⟩ := text_as_lines (slice source r)
     simp only [shiftNL_nil, List.nil_append, List.append_nil, h0, Nat.zero_add]
     conv => rhs; rw [ht]
@@ -428,22 +399,20 @@ theorem rewrite_to_self_noop_partial (source : Bytes) (env : TEnv) (k : Nat) (hk
     exact shiftNL_of_noNL _ _ hmulti
 
 /-- the headline instance: template `$A`, `A` bound to the matched node `[s, e)` -/
-theorem rewrite_to_self_noop (source : Bytes) (env : TEnv) (s e : Nat)
+theorem rewrite_to_self_noop_A (source : Bytes) (env : TEnv) (s e : Nat)
     (hA : lookupB [0x41] env.single = some (s, e))
-    (hw : WellIndented (indentAt (source.take s)) (slice source (s, e)))
-    (hf : FirstLineKept (indentAt (source.take s)) 0 (slice source (s, e))) :
+    (hw : WellIndented (indentAt (source.take s)) (slice source (s, e))) :
     templateFix source s env [0x24, 0x41] [] = slice source (s, e) :=
-  rewrite_to_self_noop_partial source env 1 (by omega) [0x41] (by simp) (by decide) (s, e)
-    (by simpa [mkVar, varRange] using hA) hw hf
+  rewrite_to_self_noop source env 1 (by omega) [0x41] (by simp) (by decide) (s, e)
+    (by simpa [mkVar, varRange] using hA) hw
 
 /-- non-vacuity: source `"  f(\n    a\n  )"`, the call (bytes 2..15) at indentation 2 satisfies
-both hypotheses, and the replacement is the call's text -/
+the hypothesis, and the replacement is the call's text -/
 example :
     let source : Bytes :=
       [0x20, 0x20, 0x66, 0x28, 0x0A, 0x20, 0x20, 0x20, 0x20, 0x61, 0x0A, 0x20, 0x20, 0x29]
     let env : TEnv := { single := [([0x41], (2, 14))] }
     WellIndented (indentAt (source.take 2)) (slice source (2, 14)) ∧
-    FirstLineKept (indentAt (source.take 2)) 0 (slice source (2, 14)) ∧
     indentAt (source.take 2) = 2 ∧
     templateFix source 2 env [0x24, 0x41] [] = slice source (2, 14) := by
   decide
@@ -455,7 +424,6 @@ example :
       [0x78, 0x0A, 0x20, 0x20, 0x7B, 0x0A, 0x20, 0x20, 0x20, 0x20, 0x61, 0x0A, 0x20, 0x20, 0x7D]
     let env : TEnv := { single := [([0x41], (4, 15))] }
     WellIndented (indentAt (source.take 4)) (slice source (4, 15)) ∧
-    FirstLineKept (indentAt (source.take 4)) (indentAt [0x67, 0x28, 0x0A, 0x20]) (slice source (4, 15)) ∧
     templateFix source 0 env [0x67, 0x28, 0x0A, 0x20, 0x24, 0x41, 0x29] [] =
       [0x67, 0x28, 0x0A, 0x20, 0x7B, 0x0A, 0x20, 0x20, 0x20, 0x61, 0x0A, 0x20, 0x7D, 0x29] := by
   decide
